@@ -10,15 +10,15 @@ use std::time::Instant;
 pub fn cases(ctx: &Ctx) -> Vec<WCase> {
     let mut out = vec![];
     let mut r = Rng::new(ctx.seed ^ 0xC02);
-    for i in 0..ctx.n(1500, 60_000) {
+    for i in 0..ctx.n(6000, 300_000) {
         let mut rr = r.fork(i as u64);
         out.push(wcase(format!("c01space-{i}"), gen_c01_space(&mut rr, 500)));
     }
-    for i in 0..ctx.n(800, 30_000) {
+    for i in 0..ctx.n(3000, 150_000) {
         let mut rr = r.fork(0x2000_0000 + i as u64);
         out.push(wcase(format!("starved-{i}"), gen_starved(&mut rr, 400)));
     }
-    for i in 0..ctx.n(500, 20_000) {
+    for i in 0..ctx.n(2000, 100_000) {
         let mut rr = r.fork(0x3000_0000 + i as u64);
         let mut s = gen_c01_space(&mut rr, 400);
         // spectators: advance-only lists
